@@ -82,6 +82,8 @@ func initProperties() {
 				use("DESCSTEP", "descriptor follows the path step", thriftGeneric),
 				use("WALKADVANCE", "descriptor advances per path step", thriftGeneric),
 				use("NEXTGUARD", "one element read per HasNext", thriftGeneric),
+				use("KTETROLE", "key/element types not mixed up", thriftGeneric),
+				use("CLAUSEWIDTH", "fixed-width clauses use the label's width", anyOf(thriftGeneric, thriftPkg)),
 				use("ERRASSERT", "no unchecked error type assertion can panic", thriftGeneric),
 				use("COUNTCMP", "index == count is out of range", anyOf(thriftGeneric, thriftPkg)),
 			)},
@@ -91,6 +93,9 @@ func initProperties() {
 			Uses: uses(
 				use("FLAGSYNC", "options reach flags", nil),
 				use("NATIVERET", "native status handled", inPkgs("conv/j2t")),
+				use("SIZEPATCH", "portable converter patches placeholder container counts", inPkgs("conv/j2t")),
+				use("BMSET", "written fields are recorded in the requires bitmap", inPkgs("conv/j2t")),
+				use("EXPCASE", "both exponent markers accepted by the portable number scanner", nil),
 				use("CASEEXIT", "kind mismatch is an error", nil),
 				use("OPTAGREE", "portable reads mapped options", nil),
 				use("DROPERR", "errors propagate", inPkgs("conv/j2t")),
@@ -135,6 +140,8 @@ func initProperties() {
 				use("COUNTCMP", "index == count addresses nothing", thriftGeneric),
 				use("WALKADVANCE", "name->id translation resolves against the parent of the addressed element", thriftGeneric),
 				use("MAPKEYTYPE", "new map keys are encoded by the key type", thriftGeneric),
+				use("CLAUSEWIDTH", "int map keys are serialised with the key type's width", thriftGeneric),
+				use("PATHKEYFAMILY", "all three map-key path kinds handled", thriftGeneric),
 				use("NOTFOUNDPOS", "a missing element is inserted into the searched container", thriftGeneric),
 			)},
 		{ID: "C05", Title: "Thrift DOM load/marshal is lossless; DOM edits marshal as edited",
@@ -147,6 +154,8 @@ func initProperties() {
 				use("ALLOCBOUND", "growth bounded", funcHas("thrift/generic.PathNode")),
 				use("POOLESCAPE", "copy-out before free", funcHas("thrift/generic.PathNode")),
 				use("TYPESWITCHAGREE", "unhashable map keys boxed by every decoder", thriftGeneric),
+				use("SIZEPATCH", "a skipped child corrects the container count", thriftGeneric),
+				use("KTETROLE", "key/element types not mixed up", thriftGeneric),
 				use("DROPERR", "errors propagate", funcHas("thrift/generic.PathNode")),
 			)},
 		{ID: "C06", Title: "Decoders survive arbitrary bytes: error, not crash, hang or over-read", QuickP: true,
@@ -169,6 +178,7 @@ func initProperties() {
 				use("HDRUSED", "container header types checked", nil),
 				use("COUNTCMP", "no element read one past the header count", nil),
 				use("DEADCMP", "limit guards are not dead by type range", nil),
+				use("UNUSEDBOUND", "length / depth bounds handed to a walker are used", nil),
 				use("ERRASSERT", "no unchecked error type assertion can panic", nil),
 				use("PACKEDKIND", "packed payloads are walked by the element kind", nil),
 				use("NATIVEQUOTE", "string escaper retry contract", nil),
@@ -190,6 +200,10 @@ func initProperties() {
 				use("DESCSTEP", "descriptor follows the path step", protoGeneric),
 				use("WALKADVANCE", "descriptor advances per path step", protoGeneric),
 				use("NEXTGUARD", "one element read per HasNext", protoGeneric),
+				use("KTETROLE", "key/element types not mixed up", protoGeneric),
+				use("REWIND", "cursor re-positioned before SkipAllElements", protoGeneric),
+				use("UNUSEDBOUND", "message-length bounds are used by the scanners", anyOf(protoGeneric, protoBinary)),
+				use("UNSIGNEDWIDEN", "unsigned 32-bit kinds are not sign-extended", nil),
 				use("PACKEDKIND", "packed payloads are walked by the element kind", nil),
 				use("LENZERO", "empty length-delimited payloads are accepted", anyOf(protoGeneric, protoBinary)),
 				use("ERRASSERT", "no unchecked error type assertion can panic", protoGeneric),
@@ -201,6 +215,7 @@ func initProperties() {
 			Uses: uses(
 				use("JSONPAIR", "balanced JSON", inPkgs("conv/p2j")),
 				use("MAPKEYQUOTE", "map keys quoted", nil),
+				use("UNSIGNEDWIDEN", "unsigned 32-bit kinds are not sign-extended", inPkgs("conv/p2j", "proto/binary")),
 				use("SIGNCONV", "unsigned exact", nil),
 				use("KINDEXH", "all kinds", inPkgs("conv/p2j")),
 				use("LOOPPROGRESS", "loops consume", inPkgs("conv/p2j")),
@@ -221,6 +236,7 @@ func initProperties() {
 			Uses: uses(
 				use("KINDEXH", "kinds accepted", inPkgs("conv/j2p")),
 				use("RWPAIR", "writer primitives per kind", nil),
+				use("UNSIGNEDWIDEN", "unsigned 32-bit kinds are not sign-extended", inPkgs("conv/j2p", "proto/binary")),
 				use("TAGTYPE", "tag wire types", inPkgs("conv/j2p")),
 				use("MAPTAG", "map entry numbers", inPkgs("conv/j2p")),
 				use("DROPERR", "errors propagate", inPkgs("conv/j2p")),
@@ -231,6 +247,7 @@ func initProperties() {
 				use("DEADCMP", "the nesting-depth limit is representable in the stack pointer type", inPkgs("conv/j2p")),
 				use("UNKNOWNSKIP", "disallow option honoured at every lookup", inPkgs("conv/j2p")),
 				use("POOLESCAPE", "result copied out of the pooled buffer", inPkgs("conv/j2p")),
+				use("POOLFIELD", "the protocol object behind the returned bytes is not recycled", inPkgs("conv/j2p")),
 				use("POOLRESET", "pooled visitor state fully reset", inPkgs("conv/j2p")),
 			)},
 		{ID: "C10", Title: "Protobuf edits and DOM marshalling keep the message well-formed and exact",
@@ -242,6 +259,7 @@ func initProperties() {
 				use("MAPKEYTYPE", "new map keys are encoded by the key kind", protoGeneric),
 				use("NOTFOUNDPOS", "a missing element is inserted into the searched container", protoGeneric),
 				use("LENZERO", "empty length-delimited payloads are accepted", protoGeneric),
+				use("KTETROLE", "key/element types not mixed up", protoGeneric),
 				use("WALKADVANCE", "descriptor advances per path step", protoGeneric),
 				use("SPECLENPAIR", "lengths finished", protoGeneric),
 				use("NILLOOKUP", "lookups checked", func(o *Obl) bool { return protoGeneric(o) && mutators(o) }),
@@ -259,6 +277,7 @@ func initProperties() {
 			NotDec:  "that the output is exactly the projection.",
 			Uses: uses(
 				use("MUSTCONSUME", "copy, never drop", nil),
+				use("BMSET", "written fields are recorded in the requires bitmap", thriftGeneric),
 				use("HDRFIRST", "header first", funcHas("generic.marshalTo")),
 				use("SPECLENPAIR", "lengths finished", funcHas("generic.marshalTo")),
 				use("DROPERR", "errors propagate", funcHas("generic.marshalTo", "MarshalTo", "handleUnsets")),
@@ -280,6 +299,7 @@ func initProperties() {
 				use("GLOBALWRITE", "no global writes", nil),
 				use("INPUTRO", "input read-only", nil),
 				use("POOLESCAPE", "pooled buffers do not escape", nil),
+				use("POOLFIELD", "a pooled object whose buffer was handed out is not recycled", nil),
 				use("POOLRESET", "pooled state fully reset", nil),
 			)},
 		{ID: "C13", Title: "JSON<->binary conversions are mutually inverse on their domains",
@@ -332,6 +352,7 @@ func initProperties() {
 			NotDec:  "precedence/fallback decision table, field-cache replay in the native converter.",
 			Uses: uses(
 				use("ANNOTABLE", "annotation -> source", nil),
+				use("BMSET", "http-mapped fields are recorded in the requires bitmap", inPkgs("conv/j2t", "conv/t2j")),
 				use("FIRSTWINS", "first source wins", nil),
 				use("FLAGSYNC", "HTTPConv enables mapping", nil),
 				use("ARGSWAP", "options in order", inPkgs("conv/j2t", "conv/t2j", "thrift/annotation")),
@@ -345,6 +366,7 @@ func initProperties() {
 			NotDec:  "agreement of outputs, text-encoder exactness (opaque blob).",
 			Uses: uses(
 				use("STUBTABLE", "flavour tables", nil),
+				use("EXPCASE", "both exponent markers accepted by the portable number scanner", nil),
 				use("TAGPARTITION", "one implementation per platform", nil),
 				use("OPTAGREE", "same options", nil),
 				use("CASEEXIT", "both reject mismatches", nil),
@@ -358,6 +380,7 @@ func initProperties() {
 			NotDec:  "value round-trips.",
 			Uses: uses(
 				use("WIDTHTABLE", "widths agree", nil),
+				use("CLAUSEWIDTH", "fixed-width clauses use the label's width", thriftPkg),
 				use("HDRFIRST", "header first", thriftPkg),
 				use("STRUCTPAIR", "STOP written", thriftPkg),
 				use("CASTUSED", "cast value written", thriftPkg),
@@ -385,6 +408,7 @@ func initProperties() {
 			NotDec:  "byte-identity with the reference encoder.",
 			Uses: uses(
 				use("RWPAIR", "reader/writer symmetric", nil),
+				use("UNSIGNEDWIDEN", "unsigned 32-bit kinds are not sign-extended", nil),
 				use("GROWCOPY", "speculative length re-allocation keeps the payload", nil),
 				use("VARINTNARROW", "varint lengths bounded before narrowing", nil),
 				use("POOLRESET", "recycled protocol objects fully reset", protoBinary),
